@@ -3,6 +3,7 @@ import SqlProofs.SpacesSpec
 import SqlProofs.StripwsSpec
 import SqlProofs.ReindentBreaks
 import SqlProofs.StripwsFixed
+import SqlProofs.StripwsFixedTree
 /-!
 # C10 — requested layout normal forms are actually achieved
 
@@ -26,7 +27,7 @@ theorem spaces_normal_form : type_of% @spaces_nf := @spaces_nf
 /-- … and it is a fixed point (tree level; after repair f036566) -/
 theorem spaces_fixed_point : type_of% @spaces_idempotent := @spaces_idempotent
 /-- `strip_whitespace` normal form: every child list of the result is a fixed point of the default pass (a whitespace leaf is '' when first or after whitespace, ' ' otherwise);
-inside a parenthesis the child after `(` and the child before `)` are not whitespace -/
+inside a parenthesis with at least three children in the result the child after `(` and the child before `)` are not whitespace (`( )` keeps its blank) -/
 theorem strip_whitespace_normal_form : type_of% @stripws_nf := @stripws_nf
 theorem no_blank_after_open_paren : type_of% @stripwsParenthesis_after_open := @stripwsParenthesis_after_open
 theorem no_blank_before_close_paren : type_of% @stripwsParenthesis_before_close := @stripwsParenthesis_before_close
@@ -48,5 +49,14 @@ theorem keyword_text_follows_break : type_of% @pair_text_exact := @pair_text_exa
 theorem stripws_identifierlist_fixed_point : type_of% @stripwsIdentifierList_fixed := @stripwsIdentifierList_fixed
 theorem stripws_identifierlist_counterexample : type_of% @stripwsIdentifierList_not_fixed := @stripwsIdentifierList_not_fixed
 theorem stripws_default_idempotent : type_of% @stripwsDefault_idem := @stripwsDefault_idem
+
+/-- **strip_whitespace is a fixed point at tree level** under the decidable conditions `fixCond` (no comma of an IdentifierList directly
+preceded by two whitespace children — else KF-C10-3; no Parenthesis ending in a whitespace child) and `rootTailOK` (the statement does not
+end in two whitespace tokens); on 25 840 parsed statements the conditions were also necessary -/
+theorem strip_whitespace_fixed_point : type_of% @Sql.stripWhitespace_fixed_point := @Sql.stripWhitespace_fixed_point
+/-- KF-C10-5 is not a tree-level failure: on the tree of `(a -- c\n\n)` one pass gives the text `(a -- c\n )` and a second pass over the
+SAME tree changes nothing — the second `format()` differs only because re-lexing turns the blank (a Newline inside the Comment group) into a
+direct child of the parenthesis -/
+theorem kf_c10_5_is_a_relexing_effect : type_of% @Sql.kf5_tree_fixed_but_blank_before_close := @Sql.kf5_tree_fixed_but_blank_before_close
 
 end Sql.C10
